@@ -101,14 +101,19 @@ def _opt(which, name, make):
 
 def build(ctx, v, kind, which, depth):
     A = attr_mods()
+    if not hasattr(v, "top_depth"):
+        v.top_depth, v.top_context = depth, None
 
     def context(depth):
         q = None
         if depth > 0:
             q = A["msg"](conversation=v.s("quoted", nonempty=True)) if depth == 1 else build(ctx, v, "image", "none", depth - 1)
-        return A["ctxinfo"](stanza_id=_opt(which, "stanza_id", v.s), participant=_opt(which, "participant", v.s), quoted_message=q,
+        v.last_context = A["ctxinfo"](stanza_id=_opt(which, "stanza_id", v.s), participant=_opt(which, "participant", v.s), quoted_message=q,
                             remote_jid=_opt(which, "remote_jid", v.s), mentioned_jid=[v.s("jid", True), v.s("jid", True)] if which in ("all", "mentioned_jid") else None,
                             edit_version=_opt(which, "edit_version", lambda: v.n("ev", 2 ** 31 - 1)), revoke_message=_opt(which, "revoke_message", v.flag))
+        if depth == v.top_depth:
+            v.top_context = v.last_context
+        return v.last_context
 
     def ci():
         return context(depth) if which in ("all", "context_info", "stanza_id", "participant", "remote_jid", "mentioned_jid", "edit_version", "revoke_message") else None
@@ -148,12 +153,12 @@ def build(ctx, v, kind, which, depth):
 
 
 OPTIONALS = {
-    "text": [], "image": ["caption", "jpeg_thumbnail", "url", "media_key", "context_info"], "contact": ["context_info"],
+    "text": [], "image": ["caption", "jpeg_thumbnail", "url", "media_key", "context_info", "mentioned_jid", "remote_jid"], "contact": ["context_info", "mentioned_jid"],
     "location": ["name", "address", "url", "duration", "accuracy_in_meters", "speed_in_mps", "degrees_clockwise_from_magnetic_north", "axolotl_sender_key_distribution_message", "jpeg_thumbnail"],
     "extended_text": ["matched_text", "canonical_url", "description", "title", "jpeg_thumbnail", "context_info", "stanza_id", "participant", "remote_jid", "mentioned_jid", "edit_version", "revoke_message"],
-    "document": ["title", "page_count", "jpeg_thumbnail", "url", "media_key", "context_info"], "audio": ["streaming_sidecar", "url", "media_key", "context_info"],
-    "video": ["gif_playback", "jpeg_thumbnail", "gif_attribution", "caption", "streaming_sidecar", "url", "media_key", "context_info"],
-    "sticker": ["png_thumbnail", "url", "media_key", "context_info"], "sender_key_distribution": [], "revoke": [],
+    "document": ["title", "page_count", "jpeg_thumbnail", "url", "media_key", "context_info", "mentioned_jid"], "audio": ["streaming_sidecar", "url", "media_key", "context_info", "mentioned_jid"],
+    "video": ["gif_playback", "jpeg_thumbnail", "gif_attribution", "caption", "streaming_sidecar", "url", "media_key", "context_info", "mentioned_jid", "edit_version"],
+    "sticker": ["png_thumbnail", "url", "media_key", "context_info", "mentioned_jid"], "sender_key_distribution": [], "revoke": [],
 }
 
 
@@ -194,6 +199,23 @@ def attrs_obs(prefix, sent, got, only_set=True):
     return obs
 
 
+def find_context(obj, seen=None):
+    """the context info of a message's content (first one found walking the attribute objects, not descending into quoted messages)"""
+    seen = seen or set()
+    if obj is None or id(obj) in seen or not hasattr(obj, "__dict__"):
+        return None
+    seen.add(id(obj))
+    for name, val in vars(obj).items():
+        if name.lstrip("_") == "context_info" and val is not None:
+            return val
+    for name, val in vars(obj).items():
+        if name.lstrip("_") != "quoted_message" and hasattr(val, "__dict__") and type(val).__module__.startswith("yowsup."):
+            r = find_context(val, seen)
+            if r is not None:
+                return r
+    return None
+
+
 def h_roundtrip(ctx, kind, which, depth):
     C, c = conv(ctx)
     v = V(ctx)
@@ -201,6 +223,9 @@ def h_roundtrip(ctx, kind, which, depth):
     wire = c.message_to_protobytes(sent)
     got = c.protobytes_to_message(wire)
     obs = attrs_obs(kind, sent, got)
+    if getattr(v, "top_context", None) is not None:
+        # the context the application handed to the constructors (the attribute object itself might have dropped it)
+        obs += attrs_obs(kind + ".context_info(as composed)", v.top_context, find_context(got))
     # peer direction: what was parsed is re-serialised without changing any modelled field
     again = c.protobytes_to_message(c.message_to_protobytes(got))
     obs += attrs_obs("re-serialised:" + kind, got, again, only_set=False)
@@ -261,6 +286,27 @@ def h_roundtrip_with_skdm(ctx, kind):
     sent.sender_key_distribution_message = A["skdm"](v.s("group", True), v.b("skdm"))
     got = c.protobytes_to_message(c.message_to_protobytes(sent))
     return attrs_obs(kind + "+sender_key_distribution", sent, got)
+
+
+def h_two_messages(ctx):
+    """two messages composed one after the other in one process: the application adds a mention to the first one's context IN PLACE
+    (list append), then composes a second message without mentions: nothing of the first leaks into the second"""
+    C, c = conv(ctx)
+    v = V(ctx)
+    A = attr_mods()
+    jid, t1, t2, sid = v.s("jid", True), v.s("text", True), v.s("text", True), v.s("stanza", True)
+    ctx1 = A["ctxinfo"]()
+    ctx1.mentioned_jid.append(jid)
+    m1 = A["msg"](extended_text=A["ext"](t1, None, None, None, None, None, ctx1))
+    got1 = c.protobytes_to_message(c.message_to_protobytes(m1))
+    ctx2 = A["ctxinfo"](stanza_id=sid)
+    m2 = A["msg"](extended_text=A["ext"](t2, None, None, None, None, None, ctx2))
+    got2 = c.protobytes_to_message(c.message_to_protobytes(m2))
+    g1 = list(got1.extended_text.context_info.mentioned_jid or []) if got1.extended_text.context_info is not None else None
+    g2 = list(got2.extended_text.context_info.mentioned_jid or []) if got2.extended_text.context_info is not None else None
+    return [("first message carries the mention added in place", g1 is not None and len(g1) == 1 and val_eq(g1[0], jid)),
+            ("second message, composed without mentions, carries none (%s)" % (len(g2) if g2 is not None else None), g2 is not None and len(g2) == 0),
+            ("second message carries its own quoted stanza id", val_eq(got2.extended_text.context_info.stanza_id, sid))]
 
 
 def h_entity_reserialise(ctx, kind):
@@ -364,6 +410,7 @@ def cases(tier):
     q = tier == "quick"
     cs = [dict(name="stub-vs-real-protobuf", fn=h_stub_vs_real)]
     cs += [dict(name="entity[%s,changed after first serialisation]" % k, fn=h_entity_reserialise, args=(k,)) for k in ("text", "extended_text")]
+    cs.append(dict(name="two-messages[mention added in place, then a fresh message]", fn=h_two_messages))
     for kind, opts in sorted(OPTIONALS.items()):
         fams = ["none", "all"] + opts
         for w in fams:
